@@ -14,7 +14,7 @@ from analysis.mir import leaves, calls_in, show
 from rules import verify_shared as vs
 
 EXPLANATION = __doc__
-FLOOR = 25
+FLOOR = 28
 CFGS = [('whatsapp_v1', 'akd_core::configuration::whatsapp_v1::<WhatsAppV1Configuration as Configuration>::'),
         ('experimental', 'akd_core::configuration::experimental::<ExperimentalConfiguration as Configuration>::')]
 T = 'akd_core::ecvrf::traits::VRFKeyStorage::'
@@ -71,3 +71,22 @@ def run(ctx):
     ctx.ob('C18.S6', 'RF-SIB', ok, gp.path, '%s:%s' % (gp.file, gp.line),
            'get_label_proof forwards (label, freshness, version) unchanged' if ok else 'get_label_proof does not forward (label, freshness, version)')
     vs.primitives(ctx, 'C18', which=('label', 'existence', 'nonexistence'))
+    encodings_exact(ctx)
+
+
+def encodings_exact(ctx):
+    """the byte encodings the verifier parses are accepted at exactly their length: a key or proof with bytes
+    appended must not be read as its prefix (two different byte strings would verify as the same key / proof —
+    seeded change C18-r1-b weakened `len != 32` to `len < 32`), and a small-order public key is refused."""
+    prog = ctx.prog
+    E = 'akd_core::ecvrf::ecvrf_impl::'
+    for ty, n in (('VRFPublicKey', 32), ('Proof', 80)):
+        b = prog.one(E + '<%s as TryFrom>::try_from' % ty)
+        require_guard(ctx, b, 'C18.K.len_exact[%s]' % ty, 'RF-GUARD',
+                      lambda fc, n=n: fc[0] == 'rel' and fc[1] == 'ne' and any(
+                          has_call(x, 'len') and has_leaf(x, 'bytes') and is_const(y, n) for x, y in ((fc[2], fc[3]), (fc[3], fc[2]))),
+                      'reject %s encodings whose length is not exactly %d bytes' % (ty, n))
+    b = prog.one(E + '<VRFPublicKey as TryFrom>::try_from')
+    require_guard(ctx, b, 'C18.K.small_order', 'RF-GUARD',
+                  lambda fc: fc[0] == 'pred' and fc[1].endswith('is_small_order') and fc[3] is True,
+                  'reject a public key of small order')
